@@ -195,6 +195,10 @@ func ruleWorkerLoops(c *Ctx) {
 				switch x := v.(type) {
 				case *ssa.Const:
 					return true
+				case *ssa.Parameter:
+					// the loop index handed to a queue accessor (`q.at(idx)`)
+					bt, isB := x.Type().Underlying().(*types.Basic)
+					return isB && bt.Info()&types.IsInteger != 0 && x.Parent() != fn
 				case *ssa.BinOp:
 					return ok(x.X, d+1) && ok(x.Y, d+1)
 				case *ssa.UnOp:
